@@ -1110,3 +1110,85 @@ Proof.
   - left. symmetry. exact E.
   - right. apply not_progress_ok_iff. exact Hnp.
 Qed.
+
+(* ---------- statements over reachable states, in terms of the script given to NewReaderSize ---------- *)
+
+Lemma cf_post_progress d b out e b' : cf_post d b out e b' ->
+  progress_ok (chunks (rsrc b)) -> progress_ok (chunks (rsrc b')).
+Proof.
+  intros (_ & _ & _ & _ & Hcase) Hpr. destruct e as [e|].
+  - destruct Hcase as (_ & _ & _ & [(_ & Hex & _)|(_ & Hnp)]); [rewrite Hex; exact I|contradiction].
+  - destruct Hcase as (_ & _ & H). exact (H Hpr).
+Qed.
+
+Lemma reachable_progress rd size b : ferr rd <> EBufferFull -> progress_ok (chunks rd) ->
+  reachable rd size b -> progress_ok (chunks (rsrc b)).
+Proof.
+  intros Hne Hpr Hr. induction Hr as [|d b out e b' Hr IH Hcall]; [exact Hpr|].
+  destruct (reachable_invariant rd size b Hne Hr) as (Hwf & _).
+  destruct (read_string_b_spec d b Hwf) as (out' & e' & b'' & Hrun & Hpost).
+  rewrite Hcall in Hrun. injection Hrun as -> -> ->.
+  exact (cf_post_progress d b _ _ _ Hpost IH).
+Qed.
+
+(* the contract, for every state a reader over the script rd reaches *)
+Theorem bufio_contract_reachable rd size d b :
+  ferr rd <> EBufferFull -> progress_ok (chunks rd) -> reachable rd size b ->
+  match read_string d (bufd b) (pending (rsrc b)) with
+  | RdLine l rest cs' =>
+      exists b', read_string_b d b = RSOk l None b' /\ reachable rd size b' /\
+        bufd b' ++ concat (pending (rsrc b')) = rest ++ concat cs'
+  | RdEOF rem =>
+      exists b', read_string_b d b = RSOk rem (Some (ferr rd)) b' /\ reachable rd size b' /\
+        bufd b' = [] /\ exhausted (rsrc b') /\ rerr b' = None
+  end.
+Proof.
+  intros Hne Hpr Hr. destruct (reachable_invariant rd size b Hne Hr) as (Hwf & _ & Hfe).
+  pose proof (bufio_read_string_contract d b Hwf (reachable_progress rd size b Hne Hpr Hr)) as H.
+  destruct (read_string d (bufd b) (pending (rsrc b))) as [l rest cs'|rem].
+  - destruct H as (b' & H1 & _ & _ & _ & _ & H2). exists b'. split; [exact H1|].
+    split; [exact (reach_call rd size d b _ _ b' Hr H1)|exact H2].
+  - destruct H as (b' & H1 & _ & _ & _ & H2 & H3 & H4). rewrite Hfe in H1. exists b'. split; [exact H1|].
+    split; [exact (reach_call rd size d b _ _ b' Hr H1)|]. split; [exact H2|split; assumption].
+Qed.
+
+(* C12_spec of Props/C12.v, of the loop that runs on the bufio model *)
+Theorem bufio_ingest_chunks_spec : forall size cs d cb, progress_ok cs ->
+  let rs := records d (concat cs) in
+  (ok_all cb 0 rs /\ bufio_ingest size cs d cb = (rs, Some RetEOF)) \/
+  (exists pre r post, rs = pre ++ r :: post /\ ok_all cb 0 pre /\ cb (length pre) r = false /\
+                      bufio_ingest size cs d cb = (pre ++ [r], Some (RetCallbackErr (length pre)))).
+Proof.
+  intros size cs d cb Hpr rs. rewrite (bufio_ingest_eq size cs d cb Hpr).
+  destruct (ingest_chunks_spec cs d cb) as [[Hok ->]|(pre & r & post & E & Hok & Hf & ->)].
+  - left. split; [exact Hok|reflexivity].
+  - right. exists pre, r, post. split; [exact E|]. split; [exact Hok|]. split; [exact Hf|reflexivity].
+Qed.
+
+(* ---------- why ferr <> ErrBufferFull is assumed ----------
+   A script whose own error value is bufio.ErrBufferFull makes collectFragments take the pending
+   error for a full buffer and go round for ever (the real package does: harness note in
+   docs/B_NOTES.md).  In the model: whatever the fuel, it runs out. *)
+Theorem bufio_buffer_full_source_diverges d : forall fuel full b,
+  bounds b -> rerr b = None -> bufd b = [] -> exhausted (rsrc b) -> ferr (rsrc b) = EBufferFull ->
+  collect_loop fuel d full b = CFOutOfFuel.
+Proof.
+  induction fuel as [|f IH]; intros full b Hb He Hbd Hex Hfe; [reflexivity|].
+  destruct (read_slice_spec d b Hb (err_final_none b He)) as (line & e & b' & Hrun & Hb' & _ & Hf' & HT & Hcase).
+  assert (HTb : T b = []) by (unfold T; rewrite Hbd, (stream_exhausted _ Hex); reflexivity).
+  rewrite HTb in HT. symmetry in HT. apply app_eq_nil in HT. destruct HT as [-> HT'].
+  rewrite collect_loop_S, Hrun. destruct e as [e|].
+  - destruct Hcase as (_ & He' & Hbd' & Hk).
+    assert (Hex' : exhausted (rsrc b')).
+    { unfold T in HT'. apply app_eq_nil in HT'. destruct HT' as [_ Hs]. unfold stream in Hs.
+      apply app_eq_nil in Hs. destruct Hs as [Hc Hl]. split; [|exact Hl].
+      destruct Hk as [(_ & Hlen & _)|[(_ & Hx)|(_ & Hnp)]].
+      - destruct Hb as (_ & _ & Hc1). cbn in Hlen. lia.
+      - exact (proj1 Hx).
+      - exfalso. apply Hnp. rewrite (proj1 Hex). exact I. }
+    assert (Ee : e = EBufferFull).
+    { destruct Hk as [(E & _)|[(E & _)|(_ & Hnp)]]; [exact E|congruence|].
+      exfalso. apply Hnp. rewrite (proj1 Hex). exact I. }
+    subst e. apply IH; [exact Hb'|exact He'|exact Hbd'|exact Hex'|congruence].
+  - destruct Hcase as ((body & Hbody & _) & _). destruct body; discriminate Hbody.
+Qed.
